@@ -93,6 +93,14 @@ def rule_state(c, prog):
         c.violation(R, "loop|early-ok", f"collect_type_info returns Ok from inside the per-property loop ({bad_ret}): the remaining properties of that instance are never registered (columns dropped depending on map iteration order)", fn.sp, instance="loop:no-early-success-return")
 
 
+def C08_contains(t, sub):
+    if t == sub:
+        return True
+    if isinstance(t, (tuple, list)):
+        return any(C08_contains(x, sub) for x in t)
+    return False
+
+
 def rule_own(c, prog):
     R = "C08.own"
     c.rule(R, "the per-instance value closure captures only shared references and reads only its own instance, in the order canonical name -> known aliases -> class default; the migration closure falls back to the original value on Err")
@@ -114,48 +122,95 @@ def rule_own(c, prog):
     else:
         c.violation(R, "value-closure|captures", f"the per-instance value closure captures {[(cp.get('name'), cp.get('kind')) for cp in by_mut]} mutably: state can leak from one instance's value to the next", core.loc(cl), instance="value-closure:captures-shared-only")
     c.sample({"rule": R, "value_closure_captures": [(cp.get("name"), cp.get("kind")) for cp in caps]})
+    # the cascade that chooses a value, read off the closure's symbolic value points (sa.sym): how it is spelled
+    # (early returns, if / else-if chain, `for` over the aliases or `find_map`) is irrelevant
+    from sa import sym, wire
+    env = {}
     param = cl["params"][0]
-    plid = param.get("lid")
+    pp = param.get("pat") or param
+    inst_t = ("in", "instance")
+    for x in core.walk(cl["body"]):
+        if x.get("k") == "Path" and x.get("res") == "local" and x["lid"] not in env:
+            env[x["lid"]] = inst_t if x["lid"] == pp.get("lid") else ("in", "cap:" + x["name"])
+    env[pp.get("lid")] = inst_t
+    try:
+        I, val, ex = wire.run_region(prog, cl["body"], env, [], depth=5, opaque={"rbx_reflection::migration::PropertyMigration::perform"})
+        pts = sym.value_points(I.events, val)
+    except sym.Unsupported as e:
+        c.violation(R, "value-closure|cannot-analyse", f"the per-instance value closure is outside the symbolic model: {e}", core.loc(cl), instance="value-closure:lookup-order")
+        pts = None
+    if pts is not None:
+        PROPS = sym.fld(inst_t, "properties")
 
-    # simpler: document order of `.properties.get(X)` calls with the role of X and of the receiver root
-    gets = []
-    for n in core.walk(cl["body"]):
-        if n.get("k") == "MethodCall" and n["m"] == "get" and "properties" in core.place_root(n["recv"])[1]:
-            root = core.strip(n["recv"])
-            while root.get("k") in ("Field", "MethodCall"):
-                root = core.strip(root["e"] if root.get("k") == "Field" else root["recv"])
-            arg = core.strip(n["args"][0]).get("name")
-            in_alias_loop = False
-            for m in core.walk(cl["body"]):
-                fl = core.as_for(m)
-                if fl is not None and any(x is n for x in core.walk(fl[2])):
-                    in_alias_loop = core.place_root(fl[1]) == ("prop_info", ["aliases"])
-            gets.append((root.get("lid") == plid, arg, in_alias_loop))
-    want = [(True, "prop_name", False), (True, "alias", True)]
-    if gets == want:
-        c.ok(R, "value-closure:lookup-order")
-    else:
-        c.violation(R, "value-closure|order", f"value lookup is {gets} (own-instance?, key, in alias loop?); required: own instance by canonical name first, then by each known alias: an explicit canonical value must win over a legacy/alias spelling, and no other instance may be read", core.loc(cl), instance="value-closure:lookup-order")
-    tail = core.strip(cl["body"]["b"].get("expr", {})) if cl["body"].get("k") == "Block" else {}
-    fp = core.fingerprint(tail, 6)
-    if "prop_info.default_value" in fp:
-        c.ok(R, "value-closure:default-last")
-    else:
-        c.violation(R, "value-closure|default", f"the value closure does not fall back to prop_info.default_value last ({fp})", core.loc(cl), instance="value-closure:default-last")
-    # migration closure
-    mig = [cl2 for n, cl2 in clos if any(x.get("k") == "MethodCall" and x["m"] == "perform" for x in core.walk(cl2["body"]))]
-    ok = False
-    if len(mig) == 1:
-        for n in core.walk(mig[0]["body"]):
-            if n.get("k") == "Match" and core.strip(n["e"]).get("m") == "perform":
-                rows = {}
-                for arm in n["arms"]:
-                    rows["Ok" if "Ok" in core.pat_str(arm["pat"]) else "Err"] = core.fingerprint(arm["body"], 4)
-                ok = rows.get("Err") == "value" and "new_value" in rows.get("Ok", "")
+        def gets_in(t, out=None):
+            out = [] if out is None else out
+            if isinstance(t, tuple) and t:
+                if t[0] == "app" and t[1].endswith("::get") and len(t[2]) == 2 and isinstance(t[2][0], tuple) and t[2][0][:1] == ("fld",) and t[2][0][2] == "properties":
+                    out.append(t)
+                for x in t:
+                    gets_in(x, out)
+            return out
+
+        ALIASES = sym.fld(("in", "cap:prop_info"), "aliases")
+
+        def is_alias_key(k):
+            """the key is an element of prop_info.aliases (possibly through .iter())"""
+            def elems(t, out):
+                if isinstance(t, tuple) and t:
+                    if t[0] == "elem":
+                        out.append(t)
+                    for x in t:
+                        elems(x, out)
+                return out
+            return any(C08_contains(e, ALIASES) for e in elems(k, []))
+        canon = alias = dflt = None
+        foreign = []
+        for idx, (cs, v, lp) in enumerate(pts):
+            for g in gets_in(v) + [g for cnd in cs for g in gets_in(cnd)]:
+                if g[2][0] != PROPS:
+                    foreign.append(sym.term_str(g, 4))
+            vg = gets_in(v)
+            if vg and not is_alias_key(vg[0][2][1]) and canon is None:
+                canon = (idx, vg[0])
+            elif vg and is_alias_key(vg[0][2][1]) and alias is None:
+                alias = (idx, cs, lp, vg[0])
+            elif C08_contains(v, sym.fld(("in", "cap:prop_info"), "default_value")) and dflt is None:
+                dflt = (idx, cs)
+        order_ok = False
+        if canon and alias:
+            g0 = canon[1]
+            key_ok = g0[2][1] == ("in", "cap:prop_name") or C08_contains(g0[2][1], ("in", "cap:prop_name"))
+            neg_canon = any(C08_contains(cnd, g0) and (cnd[0] == "not" or (cnd[0] == "is" and cnd[2] == sym.NONE)) for cnd in alias[1])
+            order_ok = key_ok and neg_canon and not foreign
+        if order_ok:
+            c.ok(R, "value-closure:lookup-order")
+        else:
+            c.violation(R, "value-closure|order", f"the value closure does not look the property up on its own instance by canonical name first and only then by each known alias (canonical lookup {'found' if canon else 'missing'}, alias lookup {'found' if alias else 'missing'}, alias tried only after the canonical lookup failed: {bool(canon and alias and order_ok)}, lookups on other maps: {foreign}): an explicit canonical value must win over a legacy/alias spelling, and no other instance may be read", core.loc(cl), instance="value-closure:lookup-order")
+        dflt_ok = False
+        if dflt and canon:
+            g0 = canon[1]
+            cs = dflt[1]
+            neg_canon = any(C08_contains(cnd, g0) and (cnd[0] == "not" or (cnd[0] == "is" and cnd[2] == sym.NONE)) for cnd in cs)
+            # the default is the *last* resort: the alias search has failed as well — either it is a loop with an early
+            # return (falling out of the loop means no alias matched) or its failure is among the path conditions
+            alias_failed = bool(alias) and (bool(alias[2]) or any(C08_contains(cnd, alias[3]) and (cnd[0] == "not" or (cnd[0] == "is" and cnd[2] == sym.NONE)) for cnd in cs))
+            dflt_ok = neg_canon and alias_failed
+        if dflt_ok:
+            c.ok(R, "value-closure:default-last")
+        else:
+            c.violation(R, "value-closure|default", "the value closure does not fall back to prop_info.default_value last, after the canonical and alias lookups failed", core.loc(cl), instance="value-closure:default-last")
+    # migration closure: Ok(new) -> new, Err(_) -> the original value (symbolic site analysis shared with C15.sites)
+    from . import C15_sites
+    try:
+        _f, r = C15_sites.site_binary_writer(prog)
+        ok = r["migrated_store"] >= 1 and r["err"] == {"stores the unmigrated value"}
+        detail = {k: (sorted(v) if isinstance(v, set) else v) for k, v in r.items()}
+    except (sym.Unsupported, core.AnalysisError) as e:
+        ok, detail = False, str(e)
     if ok:
         c.ok(R, "migration-closure:fallback")
     else:
-        c.violation(R, "migration-closure|fallback", "the per-value migration no longer maps Ok(new) -> new and Err(_) -> the original value", fn.sp, instance="migration-closure:fallback")
+        c.violation(R, "migration-closure|fallback", f"the per-value migration no longer maps Ok(new) -> new and Err(_) -> the original value ({detail})", fn.sp, instance="migration-closure:fallback")
 
 
 def rule_default(c, prog):
